@@ -870,6 +870,7 @@ func (c *wChain) apply(db *gorm.DB) *gorm.DB {
 
 type chainGenCfg struct {
 	exGenCfg
+	noStruct   bool // no struct-valued conditions (they are typed by the model)
 	soft       bool
 	allowEmpty bool
 	leadingOr  bool // allow Or as the first condition call
@@ -954,7 +955,7 @@ func genForm(rng *rand.Rand, w *wWorld, depth int, cfg chainGenCfg) *wForm {
 		}
 		return &wForm{Kind: "fields", Atoms: atoms, GoDesc: fmt.Sprintf("map%v", m),
 			Go: func(*gorm.DB) (interface{}, []interface{}) { return m, nil }}
-	case k < 14: // struct (zero fields add nothing)
+	case k < 14 && !cfg.noStruct: // struct (zero fields add nothing)
 		tbl := tableOf(cfg.soft)
 		var a, b *int
 		var atoms []*wAtom
@@ -1110,6 +1111,8 @@ func (c semCtx) formVal(f *wForm) (v3, bool) {
 		return c.ex(f.Ex), true
 	case "group":
 		return c.chain(f.Group)
+	case "const":
+		return constVal, true
 	}
 	return vT, false
 }
@@ -1194,6 +1197,16 @@ func (c semCtx) formNot(f *wForm) (v3, bool) {
 	v, ok := c.formVal(f)
 	return not3(v), ok
 }
+
+// chainThen: the chain followed by one more AND unit of value `last` (the model value's primary key)
+func (c semCtx) chainThen(ch *wChain, last v3) (v3, bool) {
+	extra := &wForm{Kind: "const"}
+	constVal = last
+	ch2 := &wChain{Steps: append(append([]wStep{}, ch.Steps...), wStep{Op: "where", Form: extra})}
+	return c.chain(ch2)
+}
+
+var constVal v3
 
 // chain: units combined left to right, AND for Where/Not, OR for Or, standard precedence
 func (c semCtx) chain(ch *wChain) (v3, bool) {
